@@ -14,8 +14,8 @@ func (c *WebserverConfig) setRestartNeededProps() {
 	c.ApiDisabled.SetRequiresRestart()
 }
 
-func (c *WebserverConfig) verify() error {
-	if c.Listen.Read() == "" {
+func (c *WebserverConfig) verify(v view) error {
+	if c.Listen.pending(v) == "" {
 		return fmt.Errorf("webserver.listen cannot be empty")
 	}
 	return nil
